@@ -160,7 +160,10 @@ def generate(rng, tier, cls):
 
     return {'actors': [{'id': 'P1', 'kind': 'writer', 'file': 'f1',
                         'main_encoding': main, 'ops': ops}, r],
-            'schedule': [], 'faults': []}
+            'schedule': [], 'faults': [],
+            # the reader of the writer's file and the reader of the
+            # reference file step alternately: two iterations alive at once
+            'interleave': rng.chance(0.5)}
 
 
 def scope_states(main, ops, out):
@@ -252,7 +255,14 @@ def execute(scn, L):
          'hex': m0.getvalue().hex()},
         dict(rspec, id='R-ref', file=twin_file),
     ]
-    w = pipe.make_world(scn, L, actors)
+    s2 = dict(scn)
+
+    if scn.get('interleave'):
+        s2['schedule'] = [wreal['id']] * (len(wreal['ops']) + 2) + \
+            ['REF'] * 2 + [rspec['id'], 'R-ref'] * 400
+        out.probe('readers_interleaved')
+
+    w = pipe.make_world(s2, L, actors)
     w.run()
     out.absorb(w)
     out.case_key = pipe.scn_digest([wspec['main_encoding'], wspec['ops']])
